@@ -1079,6 +1079,22 @@ class KindInterp:
                     out = join(out, self.obj_attr(target, n, e))
                 if out is not None:
                     return out
+        # getattr(obj, name) where the possible names are the string constants of a class-level table (sa/memo.py resolves them)
+        if isinstance(f, ast.Name) and f.id == 'getattr' and 'getattr' not in env and len(e.args) in (2, 3) and not isinstance(e.args[1], (ast.JoinedStr, ast.Constant)):
+            target = self.eval(e.args[0], env)
+            from .loader import enclosing
+            from .memo import Deps
+
+            fn_ = enclosing(e, (ast.FunctionDef,))
+            if isinstance(target, Obj) and fn_ is not None and fn_.args.args:
+                names_ = Deps(self.world, self.table, target.cls)._strings(e.args[1], fn_, fn_.args.args[0].arg, set())
+                if names_:
+                    out = None
+                    for n in sorted(names_):
+                        if any(n in k.own for k in target.cls.mro):
+                            out = join(out, self.obj_attr(target, n, e))
+                    if out is not None:
+                        return out
         fv = self.eval(f, env)
         args, kwargs = self.args(e, env)
         if isinstance(f, ast.Attribute) and f.attr == 'astype' or (isinstance(fv, ExternFn) and fv.name.endswith('.astype')):
